@@ -27,7 +27,9 @@ RULE = (
     "truncation at every landmark +-k and at random points, single-byte corruptions, splices, and crafted fields "
     "(NumberOfSections 0/65535, e_lfanew <= 0 / >= 1024 / past EOF, export RVA outside every section / past EOF, "
     "section pointers past EOF, setting length past the block, 128-byte User-Agent without NUL before EOF, guard "
-    "marker closer than 6144 bytes to the file start, guard area without terminator). Oracle: every entry point "
+    "marker closer than 6144 bytes to the file start, guard area without terminator, bit flips in the guard TLV "
+    "fields), plus a systematic corruption sweep (every PE header byte set to 00/FF/flipped; every single-bit flip "
+    "of the first 24 guard bytes and the 6 configuration bytes before them). Oracle: every entry point "
     "returns or raises ValueError; anything else is bucketed by (exception type, innermost library frame) and the "
     "search continues (collect mode); a 20 s CPU-time watchdog (confirmed by a re-run) turns non-termination into a "
     "finding. Non-trivial: a structured-fault case (valid payload + >= 1 fault); distinct by the bytes fed."
@@ -297,8 +299,10 @@ def build_base(base, rnd):
         pre = b"\x41" * (base["n"] % 200)
         data = pre + mb + mg + rnd.randbytes(base["n"] % 20)
         lm["cfg"] = len(pre)
-        lm["guard"] = len(pre) + G.CONFIG_SIZE
+        lm["guard"] = g0 = len(pre) + G.CONFIG_SIZE
         lm["end"] = len(data)
+        # fields of the (masked) guard TLV: [opt type len value(2)] [0009 0002 0004 checksum(4)] 0000
+        lm.update(guard_opt1=g0, guard_type1=g0 + 2, guard_len1=g0 + 4, guard_cs_opt=g0 + 8, guard_cs_type=g0 + 10, guard_cs_len=g0 + 12, guard_cs_val=g0 + 14, guard_term=g0 + 18, cfg_tail=g0 - 6)
         if base.get("early_marker"):
             # guard marker closer to the file start than the 6144-byte configuration that should precede it
             cut = G.CONFIG_SIZE - (base["n"] % 200) - 6
@@ -331,6 +335,12 @@ def apply_faults(data: bytes, lm, faults):
             name, val = f[1], f[2]
             if name in lm and lm[name] + len(val) <= len(b):
                 b[lm[name] : lm[name] + len(val)] = val
+        elif op == "xor_field":
+            # masked areas (Guardrails): flipping bits of the stored bytes flips the same bits of the plaintext field
+            name, val = f[1], f[2]
+            if name in lm and lm[name] + len(val) <= len(b):
+                for i, v in enumerate(val):
+                    b[lm[name] + i] ^= v
     return bytes(b)
 
 
@@ -348,11 +358,13 @@ CRAFTED = (
     + [("field", "opt_magic", struct.pack("<H", v)) for v in (0, 0x10B, 0x20B)]
     + [("field", "cfg_len1", struct.pack(">H", v)) for v in (0, 0xFFFF, 0x1000, 0x7FFF)]
     + [("field", "cfg_ua_len", struct.pack(">H", v)) for v in (0x80, 0x7F, 0xFFFF)]
+    + [("xor_field", name, val) for name in ("guard_len1", "guard_cs_len", "guard_cs_type", "guard_cs_opt", "guard_type1", "guard_term") for val in (b"\x00\x01", b"\x00\x02", b"\x00\x04", b"\x00\x06", b"\x00\x07", b"\x00\xff", b"\xff\xff", b"\x01\x00", b"\x80\x00")]
+    + [("xor_field", "guard_cs_val", val) for val in (b"\x00\x00\x00\x01", b"\xff\xff\xff\xff")]
 )
 
 
 def fault_strategy():
-    landmark = st.sampled_from(["mz", "e_lfanew", "pe", "machine", "nsections", "opt_magic", "export_rva", "sec0", "sec1_rawptr", "export_dir", "cfg", "cfg_len1", "cfg_ua_len", "guard", "end", "mid", "crlf", "body", "size_of_headers"])
+    landmark = st.sampled_from(["guard_len1", "guard_cs_len", "guard_term", "cfg_tail", "mz", "e_lfanew", "pe", "machine", "nsections", "opt_magic", "export_rva", "sec0", "sec1_rawptr", "export_dir", "cfg", "cfg_len1", "cfg_ua_len", "guard", "end", "mid", "crlf", "body", "size_of_headers"])
     fault = st.one_of(
         st.tuples(st.just("trunc_at"), landmark, st.integers(-8, 70)),
         st.tuples(st.just("trunc"), st.integers(0, 1 << 20)),
@@ -487,7 +499,59 @@ def fuzz_custom(tier, seed, shard, nshards, stats, rec):
     stats.note({"shard": shard, "target": target, "seeded": bool(seeds)}, True, classes=["atheris_" + target])
 
 
+# ------------------------------------------------------------------------------------------ systematic field corruption sweep
+def corrupt_enumerate(tier, shard, nshards):
+    def gen():
+        kinds = (("pe", "x86"), ("xorpe", "x64"), ("guard", "x86")) if tier == "quick" else (("pe", "x86"), ("pe", "x64"), ("xorpe", "x64"), ("xorpe", "x86"), ("guard", "x86"))
+        for kind, arch in kinds:
+            for variant in range(1 if tier == "quick" else 3):
+                for part in range(8):
+                    yield {"kind": kind, "arch": arch, "variant": variant, "part": part, "tier": tier}
+
+    return shard_iter(gen(), shard, nshards)
+
+
+def corrupt_execute(case, stats):
+    """Every byte of the PE headers set to 00 / FF / flipped in bit 0 and 7; every single-bit flip of the first 24
+    bytes of the guard area and of the 6 configuration bytes in front of it."""
+    if "data" in case:
+        run_entries(case["data"], [case["entry"]], stats, what="replay")
+        return
+    rnd = random.Random(100 + case["variant"])
+    base = {"kind": case["kind"], "arch": case["arch"], "key": 0x2E, "n": 23 + 57 * case["variant"], "short": True, "ua_edge": False}
+    view, lm, enc = build_base(base, rnd)
+    muts = []
+    if case["kind"] == "guard":
+        for pos in range(lm["guard"] - 6, lm["guard"] + 24):
+            for bit in range(8):
+                muts.append((pos, lambda b, bit=bit: b ^ (1 << bit)))
+        names = ["from_bytes"]
+    else:
+        end = lm["sec0"] + 40 * 3
+        for pos in range(lm["mz"], min(end, len(view))):
+            fns = (lambda b: 0x00, lambda b: 0xFF) if case.get("tier") == "quick" else (lambda b: 0x00, lambda b: 0xFF, lambda b: b ^ 0x01, lambda b: b ^ 0x80)
+            for fn in fns:
+                muts.append((pos, fn))
+        names = ["from_bytes", "pe_helpers_raw", "pe_helpers_xor"]
+    muts = muts[case["part"] :: 8]
+    n = 0
+    for pos, fn in muts:
+        b = bytearray(view)
+        new = fn(b[pos]) & 0xFF
+        if new == b[pos]:
+            continue
+        b[pos] = new
+        data = enc(bytes(b))
+        if detect.marker_count(data) > 8:
+            continue
+        run_entries(data, names, stats, what=f"{case['kind']} byte {pos} -> {new:#04x}")
+        n += 1
+    stats.count("corruptions", n)
+    stats.note(case, True, classes=["corrupt_" + case["kind"]])
+
+
 SUBS = [
+    Sub("field_corruption_sweep", corrupt_execute, enumerate=corrupt_enumerate, exhaustive=True),
     Sub("atheris_entry_points", fuzz_execute, custom=fuzz_custom, shards={"quick": 1, "thorough": 8}),
     Sub("raw_bytes", raw_execute, strategy=raw_strategy, examples={"quick": 1600, "thorough": 48000}),
     Sub("structured_faults", fault_execute, strategy=fault_strategy, examples={"quick": 1600, "thorough": 48000}),
